@@ -62,7 +62,7 @@ _DENY_EXACT = {
     "os.mkfifo", "os.mknod", "pty.spawn", "webbrowser.open", "signal.pthread_kill",
 }
 _DENY_PREFIX = ("subprocess.", "socket.", "shutil.", "tempfile.", "ctypes.", "urllib.", "http.", "ftplib.",
-                "smtplib.", "poplib.", "imaplib.", "nntplib.", "telnetlib.", "mmap.", "sqlite3.", "ensurepip.",
+                "smtplib.", "poplib.", "imaplib.", "nntplib.", "telnetlib.", "sqlite3.", "ensurepip.",
                 "fcntl.", "syslog.")
 
 
